@@ -59,7 +59,10 @@ def run_case(draw):
             "dt_imu": draw(st.sampled_from([1 / 400.0, 1 / 200.0, 1 / 100.0, 1 / 50.0])),
             "dt_mag": draw(st.sampled_from([1 / 50.0, 1 / 20.0, 1 / 10.0])),
             "dt_log": draw(st.sampled_from([1 / 200.0, 1 / 100.0])), "tf": float(draw(st.integers(20, 30))),
-            "mag_str": draw(st.sampled_from([0.1, 0.5, 1.0])), "g": 9.8}
+            "mag_str": draw(st.sampled_from([0.1, 0.5, 1.0])),
+            # configured gravity: the shipped value, or another one either given to both nodes or only to the simulator
+            # (the estimator then keeps its default 9.8: the readings stay within its +-1 magnitude gate)
+            "g": draw(st.sampled_from([9.8, 9.8, 9.81, 9.5, 10.1])), "g_both": draw(st.booleans())}
 
 
 def do_run(case):
@@ -68,6 +71,10 @@ def do_run(case):
     params = {"sim/enable_noise": False, "sim/mag_incl": case["incl"], "sim/mag_decl": case["decl"], "mrp/mag_decl": case["decl"],
               "sim/dt_sim": case["dt_sim"], "sim/dt_imu": dt_imu, "sim/dt_mag": case["dt_mag"], "logger/dt": case["dt_log"],
               "sim/mag_str": case["mag_str"]}
+    if case["g"] != 9.8:
+        params["sim/g"] = case["g"]
+        if case.get("g_both", True):
+            params["mrp/g"] = case["g"]
     with cy.quiet():
         log = m.launch_sim({"tf": case["tf"], "estimators": ["mrp"], "initialize": case["initialize"],
                             "x0": list(case["r"]) + list(case["b"]), "name": "verif", "params": params})
@@ -75,7 +82,7 @@ def do_run(case):
 
 
 def check_run(case):
-    require(all(abs(v) <= 1.0 for v in case["r"]) and all(abs(v) <= 0.1 for v in case["b"]) and 15 <= case["tf"] <= 60)
+    require(all(abs(v) <= 1.0 for v in case["r"]) and all(abs(v) <= 0.1 for v in case["b"]) and 15 <= case["tf"] <= 60 and 9.4 <= case["g"] <= 10.2)
     try:
         log = do_run(case)
     except Violation:
@@ -157,7 +164,8 @@ def run_nontrivial(case):
 
 
 def run_classify(case):
-    return ["init" if case["initialize"] else "noinit", "dt_imu=%g" % case["dt_imu"]]
+    return ["init" if case["initialize"] else "noinit", "dt_imu=%g" % case["dt_imu"],
+            "g:default" if case["g"] == 9.8 else "g:both" if case.get("g_both", True) else "g:sim_only"]
 
 
 # ---- direct sensor-model cell -------------------------------------------------------------
